@@ -32,8 +32,8 @@ INVS = ['NoFault', 'NoForeignSignal', 'RunLive', 'CascadeShape', 'Contained', 'N
 
 
 def run(check, obs, labels, limit=None, invariants=INVS):
-    if limit is None and check.tier == 'quick':
-        limit = 12000
+    if limit is None:
+        limit = 12000 if check.tier == 'quick' else 250000
     runs = []
     for label in labels:
         consts = CONFIGS[label]
